@@ -220,6 +220,11 @@ func (pmt *Payment) Normalize(normalizers tax.Normalizers) {
 	}
 	pmt.Series = cbc.NormalizeCode(pmt.Series)
 	pmt.Code = cbc.NormalizeCode(pmt.Code)
+	pmt.ExchangeRates = dropNilRows(pmt.ExchangeRates)
+	pmt.Preceding = dropNilRows(pmt.Preceding)
+	pmt.Lines = dropNilRows(pmt.Lines)
+	pmt.Notes = dropNilRows(pmt.Notes)
+	pmt.Complements = dropNilRows(pmt.Complements)
 
 	normalizers.Each(pmt)
 
@@ -260,6 +265,9 @@ func (pmt *Payment) calculate() error {
 	}
 
 	for i, l := range pmt.Lines {
+		if l == nil {
+			continue
+		}
 		l.Index = i + 1
 		if err := l.calculate(pmt.Currency, pmt.ExchangeRates); err != nil {
 			return validation.Errors{
